@@ -10,6 +10,8 @@ func init() {
 	register("fuzz_generate", suiteFuzzGenerate)
 }
 
+var fuzzLines = []string{"##!> define x {{x}}\n{{x}}", "##!> define x a{{y}}\n##!> define y b{{x}}\nuse{{x}}", "##!> define a {{b}}\n##!> define b {{c}}\n##!> define c z\n{{a}}{{b}}", "##! +s\nfoo.bar", "##! ^x\nabc", "##!> cmdline\nx\n##!<", "##!> cmdline 1\nx\n##!<"}
+
 var fuzzTokens = []string{"##!", "##!>", "##!<", "##!=>", "##!=<", "##!+", "##!^", "##!$", " assemble", " cmdline", " unix", " windows", " include", " include-except", " define",
 	" x", " inc", " --", " a", " b", "i", "s", "(", ")", "(?:", "(?i:", "(?s:", "\\(?i:x", "\\(", "\\)", "|", "[", "]", "[^", "\\", "\\\\", "\"", "{", "}", "{{", "}}", "{{x}}", "*", "+", "?", ".",
 	"^", "$", "\\x", "\\x{", "é", "\xff", "\x00", "\t", " ", "a", "foo", "@", "~", "'", "-", "\\s", "\\b", "{2,3}", "{99999}", "(?P<n>", "(?i)", "\\Q", "\\E", "\\pL", "[[:alpha:]]", "\r"}
@@ -18,7 +20,9 @@ func genFuzzText(r *Rng) string {
 	var sb strings.Builder
 	lines := r.Range(0, 8)
 	for i := 0; i < lines; i++ {
-		switch r.Intn(4) {
+		switch r.Intn(5) {
+		case 4:
+			sb.WriteString(r.Pick(fuzzLines))
 		case 0:
 			l, _ := genDirectiveLine(r)
 			sb.WriteString(l)
@@ -97,8 +101,8 @@ func suiteFuzzGenerate(env *Env, res *Result) {
 	outs := compareWithModelAlt(env, res, cases)
 	// C03: where the model says the result depends on a map iteration order, show it on the binary
 	for i, o := range outs {
-		if !strings.HasPrefix(o, "ORDER-DEPENDENT") {
-			continue
+		if !strings.HasPrefix(o, "ORDER-DEPENDENT") && o == cases[i].Impl {
+			continue // model and binary agree on one result: nothing points at an order dependence
 		}
 		f := runs[i]
 		root := mkScratch(env, "fzr")
@@ -113,6 +117,8 @@ func suiteFuzzGenerate(env *Env, res *Result) {
 			shape := "c03_order_dependent_other"
 			if ambiguousIncludeLine(all) {
 				shape = "c03_line_claimed_by_two_patterns"
+			} else if cyclicDefinitions(all) {
+				shape = "c03_cyclic_definitions"
 			} else if strings.Contains(all, "--") {
 				shape = "c03_chained_suffix_pairs"
 			}
@@ -155,6 +161,40 @@ func escapedParenFlagGroup(t string) bool {
 			if j > i+3 && j < len(t) && (t[j] == ':' || t[j] == ')') {
 				return true
 			}
+		}
+	}
+	return false
+}
+
+// definitions that reference each other in a cycle (outside C07's quantifier, but the result
+// then depends on the map iteration order: known finding C03-cyclic-definitions)
+func cyclicDefinitions(t string) bool {
+	defs := map[string]string{}
+	for _, l := range strings.Split(t, "\n") {
+		f := strings.Fields(strings.TrimLeft(l, " \t"))
+		if len(f) == 4 && f[0] == "##!>" && f[1] == "define" {
+			if _, ok := defs[f[2]]; !ok {
+				defs[f[2]] = f[3]
+			}
+		}
+	}
+	var visit func(n string, seen map[string]bool) bool
+	visit = func(n string, seen map[string]bool) bool {
+		if seen[n] {
+			return true
+		}
+		seen[n] = true
+		for m := range defs {
+			if strings.Contains(defs[n], "{{"+m+"}}") && visit(m, seen) {
+				return true
+			}
+		}
+		delete(seen, n)
+		return false
+	}
+	for n := range defs {
+		if visit(n, map[string]bool{}) {
+			return true
 		}
 	}
 	return false
